@@ -334,11 +334,26 @@ class MessageManager(interfaces.TokenInterface, interfaces.MessageManager):
             )
 
         # first iteration is sure to happen, others happen only if the enqueued
-        # messages were NONs
-        while not any(r == remote for r, mid in self._active_exchanges.keys()):
+        # messages were NONs. (Sending can fail on the spot; a transport error
+        # dispatched from inside the send call has then already dropped the
+        # remote's whole backlog.)
+        while remote in self._backlogs and not any(
+            r == remote for r, mid in self._active_exchanges.keys()
+        ):
             if self._backlogs[remote] != []:
                 next_message, messageerror_monitor = self._backlogs[remote].pop(0)
-                self._send_initially(next_message, messageerror_monitor)
+                try:
+                    self._send_initially(next_message, messageerror_monitor)
+                except Exception:
+                    # Whoever handed the message in is not on the call stack
+                    # any more, and whatever is (typically the processing of
+                    # the previous exchange's ACK) must go on.
+                    self.log.error(
+                        "Held-back message %r could not be sent",
+                        next_message,
+                        exc_info=True,
+                    )
+                    messageerror_monitor()
             else:
                 del self._backlogs[remote]
                 break
